@@ -51,6 +51,13 @@ def structures(tier):
     plain = class_shapes(False)
     for s in one:
         yield [{'name': 'TA', 'tag': s[0], 'base': None, 'methods': s[1]}]
+    # tagged methods that are also wrapped by a functools.wraps decorator,
+    # the tag applied outermost (@tag above @decorator): still tagged
+    for s in plain:
+        if any(m[1] for m in s[1]):
+            yield [{'name': 'TA', 'tag': s[0], 'base': None,
+                    'methods': [[m[0], m[1], m[2], 1 if m[1] else 0]
+                                for m in s[1]]}]
     for a in plain:
         for b in plain:
             for base in (None, 'TA'):
@@ -107,12 +114,22 @@ def model_tests(struct):
         ctag_inh = any(k['tag'] for k in chain)
         tests = {}
         for k in reversed(chain):
-            for (m, t, f) in k['methods']:
+            for (m, t, f) in [x[:3] for x in k['methods']]:
                 tagged = bool(t) or ctag_inh
                 certain = bool(t) or ctag_own or not ctag_inh
                 tests[m] = (m, tagged, bool(f), certain)
         out[c['name']] = [tests[m] for m in sorted(tests)]
     return out
+
+
+def passthrough(fn):
+    """An ordinary well-behaved decorator (functools.wraps)."""
+    import functools
+
+    @functools.wraps(fn)
+    def wrapper(*a, **kw):
+        return fn(*a, **kw)
+    return wrapper
 
 
 def build_module(struct, log, keep=None):
@@ -124,13 +141,18 @@ def build_module(struct, log, keep=None):
     for c in struct:
         base = classes[c['base']] if c['base'] else ReferenceTestCase
         ns = {'__module__': MODNAME}
-        for (m, t, f) in c['methods']:
+        for meth in c['methods']:
+            (m, t, f) = meth[:3]
+            wrap = meth[3] if len(meth) > 3 else 0
+
             def body(self, _m=m, _f=f):
                 log.append((type(self).__name__, _m))
                 if _f:
                     raise AssertionError('deliberate failure')
             body.__name__ = m
             body.__module__ = MODNAME
+            if wrap:
+                body = passthrough(body)
             if t and keep is None:
                 body = tag(body)
             ns[m] = body
@@ -356,7 +378,7 @@ class C19(Check):
             if c['tag']:
                 src.append('@tag')
             src.append('class TA(ReferenceTestCase):')
-            for (m, t, f) in c['methods']:
+            for (m, t, f) in [x[:3] for x in c['methods']]:
                 if t:
                     src.append('    @tag')
                 src.append('    def %s(self):' % m)
@@ -381,7 +403,7 @@ class C19(Check):
         tagged = any(a in ('-1', '--tagged', '-1v') for a in flags)
         listing = any(a in ('-0', '--istagged') for a in flags)
         failfast = '-f' in flags
-        tests = sorted(c['methods'])
+        tests = sorted(x[:3] for x in c['methods'])
         if listing:
             want = []
         else:
@@ -447,7 +469,7 @@ class C19(Check):
         tagged_method = None
         for c in struct:
             if c['name'] == 'TA':
-                for (m, t, f) in c['methods']:
+                for (m, t, f) in [x[:3] for x in c['methods']]:
                     if t and tagged_method is None:
                         tagged_method = 'TA.' + m
         trailers = [None, 'TA', 'Nope']
